@@ -184,6 +184,14 @@ def r_ziptable(P, chk):
         ok = len(fin) == 1
         if ok:
             a = [resolve_key(f, x).replace("(", "").replace(")", "").replace(" ", "") for x in fin[0]["c"][2:4]]
+            if a != ["&result->str", "&result->currentStringLength"] and all(x.startswith("&") and "->" not in x for x in a):
+                # through two locals that are then stored into the result on every path
+                st1 = [y for y in f.walk() if y["k"] == "BinaryOperator" and y["op"] == "=" and key(y["c"][0]) == "result->str"
+                       and key(y["c"][1]).strip("()") == a[0][1:] and f.cfg.postdominates(y["i"], fin[0]["i"])]
+                st2 = [y for y in f.walk() if y["k"] == "BinaryOperator" and y["op"] == "=" and key(y["c"][0]) == "result->currentStringLength"
+                       and key(y["c"][1]).strip("()") == a[1][1:] and f.cfg.postdominates(y["i"], fin[0]["i"])]
+                if st1 and st2:
+                    a = ["&result->str", "&result->currentStringLength"]
             ok = a == ["&result->str", "&result->currentStringLength"] and f.cfg.block_postdominates(f.block_of(fin[0]), f.cfg.entry)
             rets = [n for n in f.walk() if n["k"] == "ReturnStmt" and n["c"] and n["c"][0] is not None]
             ok = ok and all(key(r["c"][0]) == "result" for r in rets)
@@ -240,7 +248,7 @@ def r_ziptable(P, chk):
                "%s can pass %s as the level_and_flags argument of mz_zip_writer_add_mem: with a miniz flag such as "
                "MZ_ZIP_FLAG_COMPRESSED_DATA (0x400) the raw bytes are written as if they were a deflate stream, with size 0 and CRC 0 - "
                "the member cannot be extracted" % (g.name, [hex(v) for v in bad] if bad else "a value that could not be resolved"))
-    chk.floor(rid, n_lv, 10, "mz_zip_writer_add_mem call sites")
+    chk.floor(rid, n_lv, 4, "mz_zip_writer_add_mem call sites")
     # ---------------- the method recorded in the headers is derived from the store decision: that decision is final by then
     from .rules_mem import _reaches
     n_m = 0
@@ -269,9 +277,26 @@ def r_ziptable(P, chk):
     chk.floor(rid, n_m, 1, "derivations of the zip method field in miniz")
     # ---------------- asset table
     an = P.func("asset_new", "writer.c")
-    ob("assets: packaged file names come from uuid_new()", any(True for _ in an.calls("uuid_new")) and any(
-        x["k"] == "BinaryOperator" and x["op"] == "=" and key(x["c"][0]).endswith("->asset_path") and
-        (strip(x["c"][1]) or {}).get("callee") == "uuid_new" for x in an.walk()), "zip:asset:uuid", an.where())
+    def from_uuid(g, e, depth=0):
+        e2 = strip(e)
+        if e2 is None:
+            return False
+        if e2["k"] == "CallExpr":
+            if e2.get("callee") == "uuid_new":
+                return True
+            h = P.resolve(g, e2.get("callee") or "")
+            if h is not None and P.first_party(h) and depth < 2:
+                rets = [r for r in h.walk() if r["k"] == "ReturnStmt" and r.get("c") and r["c"][0] is not None]
+                return bool(rets) and all(from_uuid(h, r["c"][0], depth + 1) for r in rets)
+            return False
+        if e2["k"] == "DeclRefExpr" and e2.get("dk") == "Var":
+            srcs = [y["c"][1] for y in g.walk() if y["k"] == "BinaryOperator" and y["op"] == "=" and key(y["c"][0]) == e2["n"]]
+            srcs += [y["c"][0] for y in g.walk() if y["k"] == "VarDecl" and y.get("n") == e2["n"] and y.get("c") and y["c"][0] is not None]
+            return bool(srcs) and all(from_uuid(g, s2, depth + 1) for s2 in srcs)
+        return False
+    ob("assets: packaged file names come from uuid_new()", any(
+        x["k"] == "BinaryOperator" and x["op"] == "=" and key(x["c"][0]).endswith("->asset_path") and from_uuid(an, x["c"][1])
+        for x in an.walk()), "zip:asset:uuid", an.where())
     # uuid_new() draws from rand(), which label_from_header re-seeds: a name must be checked against the table before it is used
     def compares_paths(g, depth=0):
         for c in g.calls():
@@ -282,12 +307,16 @@ def r_ziptable(P, chk):
                 return True
         return False
     redraw = False
-    for w in an.walk():
+    producers = [an] + [h for h in (P.resolve(an, c.get("callee") or "") for c in an.calls()) if h is not None and P.first_party(h)
+                        and any(True for _ in h.calls("uuid_new"))]
+    for an2, w in [(g2, w2) for g2 in producers for w2 in g2.walk()]:
         if w["k"] in ("WhileStmt", "DoStmt"):
             cond = w["c"][0] if w["k"] == "WhileStmt" else w["c"][1]
             body = w["c"][1] if w["k"] == "WhileStmt" else w["c"][0]
-            tests = [y for y in walk(cond) if y["k"] == "CallExpr" and y.get("callee") and P.resolve(an, y["callee"]) is not None
-                     and compares_paths(P.resolve(an, y["callee"])) and any(key(a).endswith("->asset_path") for a in y["c"][1:])]
+            gen = {nm for nm in [y.get("n") for y in an2.walk() if y["k"] == "VarDecl"] +
+                   [key(y["c"][0]) for y in an2.walk() if y["k"] == "BinaryOperator" and y["op"] == "="] if nm}
+            tests = [y for y in walk(cond) if y["k"] == "CallExpr" and y.get("callee") and P.resolve(an2, y["callee"]) is not None
+                     and compares_paths(P.resolve(an2, y["callee"])) and any(key(a).endswith("->asset_path") or key(a) in gen for a in y["c"][1:])]
             if tests and any(y["k"] == "CallExpr" and y.get("callee") == "uuid_new" for y in walk(body)):
                 redraw = True
     ob("assets: a packaged name is drawn again while another asset in the table already uses it", redraw, "zip:asset:unique", an.where(),
